@@ -119,19 +119,30 @@ def bbox_case(draw):
     # cut the index lattice: frequency cut positions and direction cut positions (between nodes)
     fc = sorted(set(draw(st.lists(st.integers(1, nf - 1), min_size=0, max_size=2))))
     dc = sorted(set(draw(st.lists(st.integers(1, nd - 1), min_size=0, max_size=2))))
+    lines = draw(st.booleans())
+    if lines and nd > 1:
+        dc = sorted(set(dc + [1]))  # a cell one direction wide at the start of the grid (direction 0 on grids that have it)
     fb = [0] + fc + [nf]
     db = [0] + dc + [nd]
     cells = [(fb[a], fb[a + 1], db[b], db[b + 1]) for a in range(len(fb) - 1) for b in range(len(db) - 1)]
     keep = draw(st.lists(st.sampled_from(cells), unique=True, min_size=1, max_size=min(4, len(cells))))
+    if lines and nd > 1 and not any(k[2] == 0 and k[3] == 1 for k in keep):
+        keep = [k for k in cells if k[2] == 0 and k[3] == 1][:1] + keep[:3]
     c["boxes"] = [list(k) for k in keep]
     c["omit"] = [draw(st.lists(st.sampled_from(["fmin", "fmax", "dmin", "dmax"]), unique=True, max_size=2)) for _ in keep]
     c["overlap"] = draw(st.integers(0, 4)) == 0
+    c["overlap_kind"] = draw(st.sampled_from(["shift", "line", "line-f"]))
+    c["lines"] = lines
     return c
 
 
-def _limits(box, f, dasc, omit):
-    """Index rectangle [f0,f1) x [d0,d1) -> limits strictly between nodes (or outside the grid at the ends)."""
+def _limits(box, f, dasc, omit, lines=False):
+    """Index rectangle [f0,f1) x [d0,d1) -> limits strictly between nodes (or outside the grid at the ends). With `lines`
+    a box one direction wide is given as dmin == dmax == that direction (exactly 0.0 for north on a grid that has it)."""
     f0, f1, d0, d1 = box
+    if lines and d1 - d0 == 1:
+        return dict(fmin=float(f[f0] - 1e-4) if f0 == 0 else float(0.5 * (f[f0 - 1] + f[f0])),
+                    fmax=float(f[f1 - 1] + 1e-4) if f1 == len(f) else float(0.5 * (f[f1 - 1] + f[f1])), dmin=float(dasc[d0]), dmax=float(dasc[d0]))
     lim = dict(
         fmin=float(f[f0] - 1e-4) if f0 == 0 else float(0.5 * (f[f0 - 1] + f[f0])),
         fmax=float(f[f1 - 1] + 1e-4) if f1 == len(f) else float(0.5 * (f[f1 - 1] + f[f1])),
@@ -159,13 +170,28 @@ def check_bbox(case, ctx):
     f = np.array(case["fg"]["f"])
     d = np.array(case["dg"]["d"])
     dasc = np.sort(d)
-    boxes = [_limits(b, f, dasc, o) for b, o in zip(case["boxes"], case["omit"])]
+    boxes = [_limits(b, f, dasc, o, lines=case.get("lines", False)) for b, o in zip(case["boxes"], case["omit"])]
+    if any(b.get("dmin") == b.get("dmax") and "dmin" in b for b in boxes):
+        ctx.label("line-box", "line-at-zero" if any(b.get("dmax") == 0.0 for b in boxes) else "line-elsewhere")
     if case["overlap"]:
         # second box = first box shifted by one bin in frequency: overlaps and shares a bin
         b0 = case["boxes"][0]
         if b0[1] - b0[0] >= 1:
             nb = [max(0, b0[0]), min(len(f), b0[1] + 1), b0[2], b0[3]]
             boxes2 = [dict(_limits(b0, f, dasc, [])), dict(_limits(nb, f, dasc, []))]
+            kind = case.get("overlap_kind", "shift")
+            if b0[3] - b0[2] < 3:
+                kind = "shift"  # a line strictly inside the box needs a direction node that is not one of its outer two
+            if kind == "line":
+                # second box degenerate in direction (dmin == dmax on a grid direction inside the first box): it selects that
+                # one direction, so the two boxes share bins
+                node = float(dasc[(b0[2] + b0[3] - 1) // 2])
+                boxes2[1] = dict(boxes2[0], dmin=node, dmax=node)
+            elif kind == "line-f" and b0[1] - b0[0] >= 1:
+                # first box degenerate in direction, second an ordinary box around it
+                node = float(dasc[(b0[2] + b0[3] - 1) // 2])
+                boxes2 = [dict(boxes2[0], dmin=node, dmax=node), dict(_limits(b0, f, dasc, []))]
+            ctx.label("overlap-kind=" + kind)
             try:
                 x.spec.partition.bbox(boxes2)
             except ValueError:
